@@ -179,12 +179,13 @@ def build(shape):
         line_penalty = iv("line_penalty", 0, 10000)
         adj = iv("adj_demerits", 0, 1 << 20)
         rs_w, rs_st, rs_sh = iv("rs_w", 0, W), iv("rs_st", 0, W), iv("rs_sh", 0, W)
+        ls_w, ls_st, ls_sh = iv("ls_w", 0, W), iv("ls_st", 0, W), iv("ls_sh", 0, W)
         zero_glue = glue_val(I(0), I(0), NORMAL, I(0))
-        params = Agg([adj, I(0), I(0), I(0), scaled(I(0)), I(0), I(0), I(0), I(0), I(0), zero_glue, line_penalty, I(shape.looseness), zero_glue, I(0),
+        params = Agg([adj, I(0), I(0), I(0), scaled(I(0)), I(0), I(0), I(0), I(0), I(0), glue_val(ls_w, ls_st, NORMAL, ls_sh), line_penalty, I(shape.looseness), zero_glue, I(0),
                       glue_val(rs_w, rs_st, shape.rs_order, rs_sh), tol])
         lb = Agg([Ref(Cell(params)), Ref(Cell(Agg([scaled(L)]))), Ref(Cell(Agg([]))), Enum(I(0), {}, "Option"), Opaque("hyphenator")])
         lst = Ref(Cell(Agg(vals)))
-        args = dict(items=items, L=L, tol=tol, line_penalty=line_penalty, adj=adj, rs=(rs_w, rs_st, rs_sh), shape=shape)
+        args = dict(items=items, L=L, tol=tol, line_penalty=line_penalty, adj=adj, rs=(rs_w, rs_st, rs_sh), ls=(ls_w, ls_st, ls_sh), shape=shape)
         return args, [Ref(Cell(lb)), lst, Ref(Cell(Opaque("font_repo"))), tol, scaled(I(0)), tm.FALSE]
     return f
 
@@ -208,7 +209,9 @@ def line(a, frm, to):
             # variant kept for reference: only the break item itself goes (the tree before fix c12 formed lines this way)
             i = frm + 1
     rs_w, rs_st, rs_sh = a["rs"]
-    w, st, sh = rs_w, (rs_st if shape.rs_order == NORMAL else I(0)), rs_sh
+    ls_w, ls_st, ls_sh = a["ls"]
+    # TeX.2021.827: every line carries \\leftskip and \\rightskip (width, stretch and shrink)
+    w, st, sh = tm.add(rs_w, ls_w), tm.add(ls_st, (rs_st if shape.rs_order == NORMAL else I(0))), tm.add(rs_sh, ls_sh)
     inf = [rs_st] if shape.rs_order != NORMAL else []
     for j in range(i, to):
         it = items[j]
@@ -365,7 +368,7 @@ def native_spec(shape):
     names = []
     for i, c in enumerate(shape.kinds):
         names += {"R": [f"w{i}"], "G": [f"w{i}", f"st{i}", f"sh{i}"], "F": [f"w{i}", f"st{i}", f"sh{i}"], "K": [f"w{i}"], "k": [f"w{i}"], "P": [f"p{i}"]}[c]
-    names += ["line_width", "tolerance", "line_penalty", "adj_demerits", "rs_w", "rs_st", "rs_sh", "rs_order", "looseness"]
+    names += ["line_width", "tolerance", "line_penalty", "adj_demerits", "rs_w", "rs_st", "rs_sh", "rs_order", "looseness", "ls_w", "ls_st", "ls_sh"]
     import zlib
     rnd = random.Random(zlib.crc32(shape.kinds.encode()))  # deterministic across processes (str hashes are salted)
     pt = 65536
@@ -382,7 +385,7 @@ def native_spec(shape):
             elif nme.startswith("p"):
                 v[nme] = rnd.choice([-9999, -200, -50, 0, 50, 200, 9999])
         v.update(line_width=100 * pt, tolerance=rnd.choice([0, 100, 200, 1000, 10000]), line_penalty=rnd.choice([0, 10, 200]), adj_demerits=rnd.choice([0, 10000]),
-                 rs_w=rnd.choice([0, 5 * pt]), rs_st=rnd.choice([0, 20 * pt, 60 * pt]), rs_sh=rnd.choice([0, 3 * pt]), rs_order=shape.rs_order, looseness=shape.looseness)
+                 rs_w=rnd.choice([0, 5 * pt]), rs_st=rnd.choice([0, 20 * pt, 60 * pt]), rs_sh=rnd.choice([0, 3 * pt]), rs_order=shape.rs_order, looseness=shape.looseness, ls_w=rnd.choice([0, 0, 2 * pt]), ls_st=rnd.choice([0, 0, 10 * pt]), ls_sh=rnd.choice([0, 0, 2 * pt]))
         vecs.append(v)
     return {"fn": "kp_pass_" + shape.kinds, "args": names, "vectors": vecs, "vectors_only": True, "defaults": {"rs_order": shape.rs_order, "looseness": shape.looseness}}
 
@@ -394,10 +397,10 @@ def obligation(kinds, rs_order=NORMAL, looseness=0, **kw):
     return dict(engine="B", name=name, crates=["boxworks-knuthplass", "common", "boxworks"],
                 fn=("boxworks-knuthplass", "break_line_single_attempt", "LineBreaker", None), args=[], build_args=build(shape),
                 unroll=len(kinds) + 6, pre=monotone, env_models=[(r"^badness$", env_badness)], uf_mul=uf_mul, prune=True,
-                realise=[["w", "st", "sh", "line_width", "rs_", "line_penalty", "p"], ["st", "sh", "rs_st", "rs_sh", "line_penalty", "p"]], post=post, post_state=True, max_paths=kw.get("max_paths", 200000),
+                realise=[["w", "st", "sh", "line_width", "rs_", "ls_", "line_penalty", "p"], ["st", "sh", "rs_st", "rs_sh", "ls_st", "ls_sh", "line_penalty", "p"]], post=post, post_state=True, max_paths=kw.get("max_paths", 200000),
                 smt_timeout=kw.get("smt_timeout", 300),
                 witnesses=witnesses(shape), native=native_spec(shape),
                 funcs=["boxworks_knuthplass::LineBreaker::break_line_single_attempt (generic MIR; try_break inlined), Diffs, Scaled64 ops, badness, demerits, num_nodes_for_next_class, ds::Horizontal::precedes_break (all from the dump); Vec/VecDeque/iterators modelled"],
                 bound=(f"horizontal list of shape {kinds} (R rule, G finite glue, F fil glue, P penalty, K explicit kern, k font kern): {n_b} interior legal breakpoint(s), "
                        "every width/stretch/shrink in [0, 2^28], penalties in [-20000, 10000) (forced breaks included), one line width, tolerance in [0, 10000], line_penalty in [0, 10000], adj_demerits in [0, 2^20], "
-                       f"symbolic right_skip, looseness {looseness}, force_solution false, emergency_stretch 0"))
+                       f"symbolic left_skip and right_skip, looseness {looseness}, force_solution false, emergency_stretch 0"))
